@@ -293,7 +293,10 @@ def finish(check, tier, base_seed, stats: ShardStats, t0, *, replay_results=None
             small = case
         h = ir.chash({"sig": sig, "case": small})
         path = os.path.join(replay_dir, f"{cid}-{h}.json")
-        write_json(path, {"property": cid, "signature": sig, "failure": fj, "case": small, "count": len(rest)})
+        rec = {"property": cid, "signature": sig, "failure": fj, "case": small, "count": len(rest)}
+        if small != case:
+            rec["unreduced_case"] = case  # the generated case the reduction started from (triage aid)
+        write_json(path, rec)
         print(f"VIOLATION property={cid} replay={path}")
         print(f"  signature: {sig}  ({len(rest)} cases)  {fj['message'][:300]}")
         n_viol += 1
